@@ -319,3 +319,105 @@ class RealLife:
                     ctx.violation("C08", "no_further_update_possible", {"pattern": pattern},
                                   "after %d successful updates a further update (%s, +400 days) fails: %s" % (
                                       successes, flags, res.exc or [m for _l, _n, m in res.logs][-3:]))
+
+
+class BranchLife:
+    """C08 under tag scope `branch`: a release on main, a maintenance branch cut at that release (named like an ordinary
+    branch, or exactly like the release tag - `git checkout -b 1.2.4 1.2.4` is what many projects do), then updates on that
+    branch.  After every update config, files, `show` and the newest tag reachable from HEAD agree, each version is greater
+    than the one before on that branch, and exactly one commit and one tag are added."""
+
+    def __init__(self, focus, quick, thorough):
+        self.name = "BRANCHLIFE/" + focus
+        self._quick, self._thorough = quick, thorough
+
+    def total(self, tier):
+        return self._quick if tier == "quick" else self._thorough
+
+    def deadline(self, tier):
+        return 170 if tier == "quick" else 1500
+
+    def gen(self, seed, index, tier):
+        rng = runner.rng_for(seed, self.name, index)
+        return {"pattern": rng.choice(["MAJOR.MINOR.PATCH", "vMAJOR.MINOR.PATCH[-TAG]", "vYYYY.BUILD[-TAG]"]),
+                "branch": rng.choice(["@tag", "@tag", "maint", "release/next", "@tag-x"]),
+                "scope_from": rng.choice(["config", "flag"]), "main_updates": rng.randint(1, 3),
+                "branch_updates": rng.randint(1, 3), "back_to_main": rng.random() < 0.5, "ops": [{"op": "branchlife"}]}
+
+    def run(self, case, ctx):
+        pattern = case["pattern"]
+        tree = rp.tokenize(pattern)
+        clock = dt.date(2024, 3, 5)
+        st = rp.state_for_date(tree, clock, {"bid": "1001", "tag": "final", "major": 1, "minor": 2, "patch": 3})
+        st = {f: st.get(f) for f in rp.fields_of(tree)}
+        if "tag" in st and st["tag"] is None:
+            st["tag"] = "final"
+        text = rp.render(tree, st)
+        d = invoker.new_dir("bl")
+        scope_line = 'tag_scope = "branch"\n' if case["scope_from"] == "config" else ""
+        cfg = ('[bumpver]\ncurrent_version = "%s"\nversion_pattern = "%s"\n%scommit = true\ntag = true\npush = false\n\n'
+               '[bumpver.file_patterns]\n"bumpver.toml" = [\'current_version = "{version}"\']\n"a.txt" = ["ver {version} end"]\n'
+               % (text, pattern, scope_line))
+        invoker.write_tree(d, {"bumpver.toml": cfg.encode(), "a.txt": ("ver %s end\n" % text).encode()})
+        rg = realgit.RealGit(d, clock, remote=False)
+        rg.init()
+        flag = [] if case["scope_from"] == "config" else ["--tag-scope", "branch"]
+        bump = ["--patch"] if "PATCH" in rp.parts_of(tree) else []
+        ctx.sample = {"campaign": self.name, "pattern": pattern, "branch": case["branch"], "scope_from": case["scope_from"]}
+        facts = {"pattern": pattern, "branch_named_like_tag": case["branch"] == "@tag", "scope_from": case["scope_from"]}
+
+        def one_update(where, prev):
+            head0, tags0 = rg.head(), set(rg.tags())
+            res = invoker.invoke(d, ["update", "--no-fetch"] + bump + flag, clock, fakevcs.VcsShim(None, forward_env=rg.env),
+                                 realgit.PassthroughHooks())
+            ctx.invocations += 1
+            new = res.log_value("New Version: ") if res.exit_code == 0 else None
+            ctx.event(where, res.exit_code, new)
+            detail = "on %s after %r: exit %s %s" % (where, prev, res.exit_code, res.exc or [m for _l, _n, m in res.logs][-2:])
+            if new is None:
+                ctx.violation("C08", "update_blocked", facts, "a plain bump under tag scope branch failed " + detail)
+                return None
+            if pep440.cmp(new, prev) <= 0:
+                ctx.violation("C08", "not_greater_than_previous", facts, "%r is not greater than %r %s" % (new, prev, detail))
+                return None
+            tags1 = set(rg.tags())
+            if tags1 - tags0 != {new} or rg.tag_commit(new) != rg.head() or rg.commit_count("%s..HEAD" % head0) != 1:
+                ctx.violation("C08", "tag_missing_or_wrong", facts, "new tags %s, HEAD moved by %d commits %s" % (
+                    sorted(tags1 - tags0), rg.commit_count("%s..HEAD" % head0), detail))
+                return None
+            snap = invoker.snapshot(d)
+            if ('"%s"' % new).encode() not in snap["bumpver.toml"] or snap["a.txt"] != ("ver %s end\n" % new).encode():
+                ctx.violation("C08", "files_disagree_after_update", facts, "config / a.txt do not show %r %s" % (new, detail))
+                return None
+            # (`show` has no --tag-scope option: when the scope comes from the command line, `show` works under the default
+            # scope and may print a newer tag from elsewhere)
+            sres = invoker.invoke(d, ["show", "--no-fetch"], clock, fakevcs.VcsShim(None, forward_env=rg.env), None)
+            ctx.invocations += 1
+            shown = sres.out_value("Current Version: ")
+            elsewhere = bool(flag) and shown in tags1 and pep440.cmp(shown, new) >= 0
+            if sres.exit_code != 0 or (shown != new and not elsewhere):
+                ctx.violation("C08", "show_disagrees", facts, "`show` prints %r (exit %s) after the update announced %r on %s" % (
+                    shown, sres.exit_code, new, where))
+                return None
+            ctx.nontriv((pattern, case["branch"], case["scope_from"], where))
+            ctx.probe("branch_scope_update_ok")
+            return new
+
+        cur = text
+        for _ in range(case["main_updates"]):
+            clock += dt.timedelta(days=2)
+            rg.set_date(clock)
+            cur = one_update("main", cur)
+            if cur is None:
+                return
+        name = {"@tag": cur, "@tag-x": cur + "-x"}.get(case["branch"], case["branch"])
+        rg.git("checkout", "-q", "-b", name)
+        if name == cur:
+            ctx.probe("branch_named_like_its_tag")
+        on_branch = cur
+        for _ in range(case["branch_updates"]):
+            clock += dt.timedelta(days=2)
+            rg.set_date(clock)
+            on_branch = one_update("branch %s" % name, on_branch)
+            if on_branch is None:
+                return
